@@ -296,6 +296,9 @@ func (d *decoder) decodeMap() (*Map, error) {
 		}
 
 		var keyItem = NewByteArray([]byte(k))
+		if err := IsValidMapKey(keyItem); err != nil {
+			return nil, err
+		}
 		if m.Has(keyItem) {
 			return nil, errors.New("duplicate object property")
 		}
